@@ -90,3 +90,43 @@ Theorem C09_model_sb : forall inner chk slot reqs log rets s,
   prof_sb reqs (responses inner [] reqs) log rets = true.
 Proof. exact prof_model_sb. Qed.
 Print Assumptions C09_model_sb.
+
+(** * Re-entrant requests: the wrapped allocator itself issues requests through
+    an AllocProfiler (the one wrapping it or another instance) while serving a
+    request.  Its behaviour during a run is a forest [f] of (request, answer,
+    nested requests); [prof_forest] tallies and forwards nested requests like
+    any other (the profiler keeps no state about being "inside" a call).  For
+    every forest: the wrapped allocator received exactly the pre-order of the
+    requests (nested ones included, one call each, nothing else, nothing
+    diverted to another allocator), every requester - the caller or the wrapped
+    allocator - was handed the wrapped allocator's answer, and the tally is that
+    of the pre-order sequence. *)
+Theorem C09_nested_transparent : forall chk slot f s log rets,
+  prof_forest chk slot [] f = Ok (s, log, rets) ->
+  log = pre_reqs_f f /\ rets = pre_ans_f f /\
+  slot_run chk slot (map op_of_req (pre_reqs_f f)) = Ok s.
+Proof. exact nested_transparent. Qed.
+Print Assumptions C09_nested_transparent.
+
+Theorem C09_nested_panic_only_from_tally : forall chk slot f p,
+  prof_forest chk slot [] f = Panic p ->
+  slot_run chk slot (map op_of_req (pre_reqs_f f)) = Panic p.
+Proof. exact nested_panic_only_from_tally. Qed.
+Print Assumptions C09_nested_panic_only_from_tally.
+
+Theorem C09_nested_release_total : forall slot f,
+  exists s, prof_forest false slot [] f = Ok (s, pre_reqs_f f, pre_ans_f f).
+Proof. exact nested_release_total. Qed.
+Print Assumptions C09_nested_release_total.
+
+(** Without nesting this is the flat run of [C09_transparent]. *)
+Theorem C09_nested_flat : forall inner chk slot reqs,
+  prof_forest chk slot [] (leaves reqs (responses inner [] reqs)) =
+  (do x <- run_prof inner chk slot [] reqs; Ok (snd x, fst (fst x), snd (fst x))).
+Proof. exact nested_flat. Qed.
+Print Assumptions C09_nested_flat.
+
+Theorem C09_nest_model_sb : forall chk slot f s log rets,
+  prof_forest chk slot [] f = Ok (s, log, rets) -> nest_sb f log rets = true.
+Proof. exact nest_model_sb. Qed.
+Print Assumptions C09_nest_model_sb.
